@@ -23,7 +23,8 @@ Proof. vm_compute. reflexivity. Qed.
 (* the modelled transformers run in this relative order (what the other slices assume) *)
 Lemma gen_transformer_order_modelled :
   filter (fun n => str_in n modelled_transformers) gen_transformer_order =
-  ["NamespaceTransformer"; "PrefixTransformer"; "SuffixTransformer"; "LabelTransformer"; "AnnotationsTransformer"].
+  ["NamespaceTransformer"; "PrefixTransformer"; "SuffixTransformer"; "LabelTransformer"; "AnnotationsTransformer";
+   "ReplicaCountTransformer"; "ImageTagTransformer"].
 Proof. vm_compute. reflexivity. Qed.
 
 Lemma pipe_rules_ok : exists rules, pipe_rules = Ok rules.
@@ -573,9 +574,9 @@ End Wrap.
 Definition respell (d : pdirs) : pdirs :=
   match pd_common_labels d with
   | [] => d
-  | cl => mkPDirsG (pd_ns d) (pd_prefix d) (pd_suffix d)
+  | cl => mkPDirsX (pd_ns d) (pd_prefix d) (pd_suffix d)
                    (pd_labels d ++ [Labels.mkLD cl true false []]) []
-                   (pd_common_annos d) (pd_cmgens d) (pd_secgens d) (pd_genopts d)
+                   (pd_common_annos d) (pd_cmgens d) (pd_secgens d) (pd_genopts d) (pd_replicas d) (pd_images d)
   end.
 
 (* rewrite the layers selected by [which] (by directory name), anywhere in the tree *)
@@ -664,7 +665,8 @@ Section Respell.
       assert (Y : label_transforms nonstr [([], gen_common_labels_fs)] x = Ok x).
       { cbn. now rewrite (label_transforms_dropped l m x Hne EX). }
       destruct l; [congruence|exact Y].
-    - destruct (String.eqb k "AnnotationsTransformer"); [unfold respell; rewrite E; reflexivity|reflexivity].
+    - destruct (String.eqb k "AnnotationsTransformer"); [unfold respell; rewrite E; reflexivity|].
+      unfold respell; rewrite E; reflexivity.
   Qed.
 
   Lemma run_order_respell ks d : forall m, run_order nonstr ks (respell d) m = run_order nonstr ks d m.
@@ -698,7 +700,7 @@ Section Respell.
   Proof.
     destruct (pd_common_labels d) as [|cl0 clt] eqn:E; unfold respell; rewrite E; [reflexivity|].
     destruct ents; [|reflexivity]. unfold is_empty_kust, dirs_empty.
-    cbn [pd_ns pd_prefix pd_suffix pd_labels pd_common_labels pd_common_annos pd_cmgens pd_secgens pd_genopts].
+    cbn [pd_ns pd_prefix pd_suffix pd_labels pd_common_labels pd_common_annos pd_cmgens pd_secgens pd_genopts pd_replicas pd_images].
     rewrite E. destruct (pd_labels d); cbn [app]; rewrite ?andb_false_r; reflexivity.
   Qed.
 
